@@ -128,6 +128,8 @@ func (o implOp) String() string {
 		return fmt.Sprintf("r:%d", o.N)
 	case 'p':
 		return "p"
+	case 'u':
+		return fmt.Sprintf("u:%d", o.N)
 	}
 	return "f"
 }
@@ -178,6 +180,12 @@ func runImplOps(data []byte, buffered, big bool, fills, reads []int, ops []implO
 			case 'f':
 				off, _ := pr.Flush()
 				obs = append(obs, fmt.Sprintf("f:%d:%d", off, src.Pos))
+			case 'u':
+				e := 0
+				if err := pr.PullBits(uint(o.N)); err != nil {
+					e = 1
+				}
+				obs = append(obs, fmt.Sprintf("u:%d:%d", e, pr.BitsRead()))
 			}
 		}()
 		if stop {
@@ -210,7 +218,15 @@ func c20Impl(r *vhlib.Run) {
 			reads = append(reads, 1+rng.Intn(20))
 		}
 		var ops []implOp
+		pulls := i%3 == 0 // ReadSymbol-style over-pulls (not covered by the specification check)
 		for k := 1 + rng.Intn(25); k > 0; k-- {
+			if pulls && rng.Intn(4) == 0 {
+				ops = append(ops, implOp{Kind: 'u', N: 1 + rng.Intn(48)})
+				if rng.Intn(2) == 0 {
+					ops = append(ops, implOp{Kind: 'b', N: 1 + rng.Intn(7)}, implOp{Kind: 'f'})
+				}
+				continue
+			}
 			switch rng.Intn(10) {
 			case 0:
 				ops = append(ops, implOp{Kind: 'p'})
@@ -236,7 +252,9 @@ func c20Impl(r *vhlib.Run) {
 		r.Case("primpl", args, strings.Join(obs, ","))
 		// and the model's run satisfies the abstract bit-stream specification
 		// (Prefix/ReaderSpec.v check_model): values, positions, no over-consumption
-		r.Case("prspec", args, "spec-ok")
+		if !pulls {
+			r.Case("prspec", args, "spec-ok")
+		}
 	}
 }
 
